@@ -16,7 +16,7 @@ every input, by typing:
 * `lexer_fails_closed` — `FSMMachine.parse` with the shipped table returns tokens or `.lexical` on every text.
 * `text_error_kinds` / `text_no_foreign` — `SQLParser.parse_statements(text)` and every `SQLParser.parse_<entry>(text)`:
   lexer + dialect pre-pass + parser.
-* `fuel_mono_text` (in `C07Fuel.lean` if present) — see there.
+* `fuel_mono_text`, `fuel_mono_entries`, `fuel_deterministic` are in `C07Fuel.lean` (they need the monotonicity lemmas).
 
 The proofs of the parser part are generated (`tools/gen_nopy.py` → `Lemmas/ParseNoPy.lean`, `Lemmas/ParseNoPyStmt.lean`)
 and re-checked by the kernel on every build, so a model edit that introduces `.error (.py _)` anywhere breaks the build
